@@ -102,6 +102,7 @@ mut('C06', 'memfs_write_keeps_old_data', MV, "            pos: 0,\n            d
 mut('C07', 'seek_current_from_len', MF, "            io::SeekFrom::Current(offset) => (self.pos, offset),", "            io::SeekFrom::Current(offset) => (self.data.len() as u64, offset),")
 mut('C07', 'seek_end_from_pos', MF, "            io::SeekFrom::End(offset) => (self.data.len() as u64, offset),", "            io::SeekFrom::End(offset) => (self.pos, offset),")
 mut('C15', 'ext_via_rsplit', PA, "    match path.as_ref().extension() {\n        Some(val) => val.to_string(),", "    match path.as_ref().to_string()?.rsplit_once('.').map(|x| x.1.to_string()) {\n        Some(val) => Ok(val),")
+mut('C17', 'expand_literal_scanner_consumes', PA, "                        str += &chars.take_while_p(|&x| x != '$').collect::<String>();\n\n                        // Read variable if it exists\n                        if chars.next_if_eq(&'$').is_some() {", "                        str += &chars.by_ref().take_while(|&x| x != '$').collect::<String>();\n\n                        // Read variable if it exists\n                        if chars.peek().is_some() {")
 mut('C17', 'var_name_stops_at_slash_only', PA, "chars.take_while_p(|&x| x != '$' && x != '}')", "chars.take_while_p(|&x| x != '$' && x != '/')")
 mut('C19', 'string_trim_suffix_rfind', 'src/core/string.rs', "        match self.ends_with(&target) {\n            true => self[..self.len() - target.len()].to_owned(),\n            _ => self.to_owned(),\n        }\n    }\n}\n\n/// Provides to_string", "        match self.rfind(&target) {\n            Some(i) => self[..i].to_owned(),\n            _ => self.to_owned(),\n        }\n    }\n}\n\n/// Provides to_string")
 
